@@ -11,14 +11,14 @@
 //!
 //! Stand-ins (environment, `#[kani::stub]`; none of them is part of the claim):
 //!  * `midnight_proofs::plonk::prepare`  -> `prepare_fold`: answers Ok(guard_i) where i is the index of
-//!    the KEY it was handed (pointer offset into the key slice) and guard_i is a real `DualMSM<Bls12>`
-//!    whose left scalar vector carries the ghost state below; it tells the per-proof transcript which
-//!    member it belongs to (one `Transcript::common` of a marked element), so that the member's summary
-//!    challenge is a value that identifies the member. (`prepare_fold_err`: member FAIL_AT answers Err.)
+//!    the KEY it was handed (pointer offset into the key slice) and guard_i is a `DualMSM<Bls12>` value
+//!    that carries the ghost state below; it tells the per-proof transcript which member it belongs
+//!    to (one real `Transcript::common` of a marked element), so that the member's summary challenge
+//!    is a value that identifies the member. (member_err harnesses: one fixed member answers Err.)
 //!  * transcript hash `FH` (a local `TranscriptHash`, as `KH` in h_batch.rs): its state records which
 //!    member summaries were absorbed; the per-proof transcript's squeeze is the member's summary
 //!    (marked element), the batching transcript's squeeze is the CHALLENGE: four SYMBOLIC limbs
-//!    (`kani::any`), and the set of summaries absorbed at that moment is recorded (CHAL_MASK).
+//!    (`kani::any`), and the set of summaries absorbed at that moment is recorded.
 //!  * `DualMSM::scale(obj, s)`: asserts that `s` is bit for bit the challenge the transcript handed
 //!    out, then multiplies every weight of `obj` by the indeterminate X.
 //!  * `DualMSM::add_msm(acc, g)`: adds the weights and the consumption counts of `g` to those of `acc`;
@@ -27,18 +27,21 @@
 //!    answers true/false nondeterministically (the pairing is engine S's / outside).
 //!
 //! GHOST STATE. Guard i starts with weight vector e_i over Z[X] (X = the formal batching challenge):
-//! weight[j] is a polynomial with DEG = 8 coefficient slots of 8 bits, packed in one u64 limb (byte k
-//! = coefficient of X^k); the 4 limbs of scalars[0] are the weights of members 0..3; scalars[1] holds
-//! the consumption counts (limb 0, byte j = how many times member j's guard went into this object)
-//! and a magic number. The weights are EXACT polynomials, not evaluations at a toy-field element:
-//! equality in Z[X] implies equality at every r of every field, so no assumption on the order of r
-//! is needed (this replaces the F_97 evaluation that was planned; it is strictly stronger and
-//! cheaper, everything but the challenge limbs and the check answer is constant-folded by CBMC).
-//! Overflow of a coefficient (>= 128) or of the degree (>= 8) is an assertion failure.
+//! weight[j] is a polynomial with 7 coefficient slots of 8 bits (coefficients < 128), packed in one
+//! word (byte k = coefficient of X^k); one word per member 0..3, one word of consumption counts (byte j
+//! = how many times member j's guard went into this object), one magic word. The six words live in the
+//! data pointers of the six EMPTY (capacity 0, length 0) vectors of the `DualMSM` struct itself (see
+//! `enc`/`dec`): every real operation that can touch a guard (move into / out of the `Vec`, `IntoIter`,
+//! drop) leaves them alone, a real `clone` loses the magic word (=> the stand-ins refuse the object).
+//! The weights are EXACT polynomials, not evaluations at a toy-field element: equality in Z[X]
+//! implies equality at every r of every field, so no assumption on the order of r is needed (this
+//! replaces the F_97 evaluation that was planned; it is strictly stronger, and everything but the
+//! challenge limbs and the check answer is constant for the SAT solver).
+//! Overflow of a coefficient (>= 128) or of the degree (> 6) is an assertion failure.
 //!
 //! ASSERTED at the final step (the statement that suffices for C15, not the particular order): every
 //! member's weight is a monomial X^k with coefficient 1, the n exponents are pairwise distinct, every
-//! guard was consumed exactly once, nothing else went in. The documented order (X^(n-1), .., X, 1)
+//! guard was consumed exactly once, nothing else went in. The order of the code as it stands, (X^(n-1), .., X, 1),
 //! satisfies it; so does any permutation or any other set of distinct powers (a random linear
 //! combination with distinct powers of r is sound by Schwartz-Zippel; with a repeated power two
 //! members' errors cancel, with a missing member its error is never looked at). The repository's
